@@ -196,7 +196,12 @@ func (a *allocation) createPermission(perm *permission, addr net.Addr) error {
 	if perm.state() == permStateIdle {
 		// Punch a hole! (this would block a bit..)
 		if err := a.CreatePermissions(addr); err != nil {
-			a.permMap.delete(addr)
+			// A stale nonce (errTryAgain) is retried by the caller with this
+			// very permission: it must stay in the map, or the retried, then
+			// successful permission would never be refreshed.
+			if !errors.Is(err, errTryAgain) {
+				a.permMap.delete(addr)
+			}
 
 			return err
 		}
